@@ -176,9 +176,9 @@ def oracle(case, impl, model=None):
             if region in machist.FIXED:
                 mb = re.search(r"fix mask=\[([^\]]*)\]", pb).group(1)
                 ma = re.search(r"fix mask=\[([^\]]*)\]", pa).group(1)
-                exp = ", ".join("%02x" % x for x in cfl[:9]) if cfl is not None and cfl[15] == 1 else mb
+                exp = ", ".join("%02x" % x for x in cfl[:9]) if cfl is not None and cfl[15] == 1 else ", ".join(["ff"] * 9)
                 if ma != exp:
-                    return {"kind": "fixed-plan channel mask after join: CFList type 1 must replace it, anything else leave it", "mask": ma, "expected": exp}
+                    return {"kind": "fixed-plan channel mask after join: CFList type 1 must replace it, otherwise the new session starts from the default mask", "mask": ma, "expected": exp}
             else:
                 cb = re.search(r"dyn ch=(\S+) mask=(.*)$", pb)
                 ca = re.search(r"dyn ch=(\S+) mask=(.*)$", pa)
